@@ -23,6 +23,8 @@ func checkC08(p *Prog, r *Report) {
 	removeMissRule(p, ls, r, "R4", subMgr)
 	r.Rule("R5", "NotifySubscribers sends exactly one Notify per entry of the per-feature query of its feature address, through the sender of the entry's client device, with (entry server address, entry client address, the given command); the fan-out loop is left only when the entries are exhausted (a failed send does not keep the remaining subscribers from being notified)")
 	fanoutRule(p, r, "R5")
+	r.Rule("R11", "the duplicate scan compares server and client feature of the existing entries with the features the new entry is built from")
+	scanContentRule(p, r, "R11", subMgr, []string{"ServerFeature", "ClientFeature"})
 	r.Rule("R10", "every hand-written element-wise comparison of two slices of one type compares their lengths for equality: entity addresses are never matched by prefix (shared lint, C20-R6)")
 	sliceEqualityHelpers(p, r, "R10")
 	r.Rule("R6", "SetData, UpdateData and the remote write executor notify subscribers exactly once when the store succeeded and never when it failed")
